@@ -46,6 +46,9 @@ var vpFilterReads []int // block indexes whose filters were asked from the curso
 // filtersFor stand-in: the section parses, is malformed (this block only), or the read fails.
 func vpFiltersForStub(c *blockFilterCursor, i int) (*BloomFilters, time.Duration, bool, error) {
 	vpFilterReads = append(vpFilterReads, i)
+	if vpIOSlot != nil {
+		vpAssert(vpIOSlot.held, "C22: block filter sections read without holding a query slot")
+	}
 	switch nondetChoice(3) {
 	case 1:
 		return nil, 0, false, errors.New("malformed filter section")
@@ -181,8 +184,14 @@ var (
 )
 
 // readPooledBlockRowData stand-in: the read fails, or yields the prepared section.
+var vpReadFailed bool
+
 func vpReadRowDataStub(file io.ReadSeeker, block *DataBlockMetadata) ([]byte, func(), error) {
+	if vpIOSlot != nil {
+		vpAssert(vpIOSlot.held, "C22: block row data read without holding a query slot")
+	}
 	if nondetBool() {
+		vpReadFailed = true
 		return nil, nil, errors.New("read failed")
 	}
 	return vpScanData, func() {}, nil
